@@ -31,6 +31,7 @@ func runC06(w *World, r *Report) {
 	hrQueueSizeParams(w, r, "R8")
 	hrQueuedRequestIdentity(w, r, "R8")
 	hrWatcherAlwaysStarts(w, r, "R7")
+	hrWatcherGetsTheQueueTTL(w, r, "R7")
 	hrOutputParamsWrittenInPlace(w, r, "R8")
 	hrEnvOfItsOwn(w, r, "R8")
 	hrTimeoutAboveTTL(w, r, "R8")
